@@ -1,35 +1,9 @@
-"""C02 — cache objects are content-addressed and immutable.
+"""C02 -- cache objects are content-addressed and immutable.
 proof (Props/C02.v) + correspondence repomodel (extracted M-REPO) vs the real xvc binary + an oracle
-that re-hashes every cache object after every item with hash implementations independent of xvc's."""
-import os, json
+that after EVERY item re-hashes every cache object with hash implementations independent of xvc's
+(reference BLAKE3, hashlib), checks the address layout, the modes, bytes and inodes of pre-existing
+objects, and that duplicates are stored once."""
 from . import common as C, repo as R, repocheck as K
-
-
-def oracle(sc):
-    """list of (item index, what, class) for the real observations of a scenario"""
-    bad = []
-    prev = None
-    for j, o in enumerate(sc.robs):
-        it = sc.eff[j]
-        after_panic = o["oc"] == "Panic"
-        for v in R.cas_check(o):
-            klass = None
-            if "not a regular file" in v:
-                klass = "symlink-moved-into-cache"
-            if after_panic and ("writable" in v):
-                klass = "left-writable-after-panic"
-            bad.append((j, v, klass))
-        if prev is not None:
-            for a, e in o["objs"].items():
-                pe = prev["objs"].get(a)
-                if pe is not None and pe[0] == "F" and e[0] == "F" and pe[3] != e[3]:
-                    same_form = R.strip_crlf(bytes.fromhex(pe[3])) == R.strip_crlf(bytes.fromhex(e[3]))
-                    bad.append((j, "bytes of object %s changed from %s to %s" % (a, pe[3][:40], e[3][:40]),
-                                "alias-object-swapped" if same_form else None))
-        prev = o
-        if after_panic:
-            break
-    return bad
 
 
 def nontrivial(sc):
@@ -49,56 +23,20 @@ def nontrivial(sc):
     return n >= 2 and retouch
 
 
+def gen(rng, idx):
+    cfg, items = R.gen_history(rng)
+    cfg = dict(cfg, algo=list(R.ALGOS)[idx % 4])
+    return cfg, items
+
+
 def run(chk, replay=None):
-    chk.cov["trusted_base"] = K.REPO_TRUSTED
-    chk.assumptions += ["ideal hash functions in the model; the oracle recomputes BLAKE3 (reference implementation), BLAKE2s, SHA-256, SHA3-256 over the bytes and over the CR/LF-stripped bytes"]
-    chk.proof()
-    model = C.ensure_model("Repo", ["Base", "Repo"])
-    xvc = C.ensure_xvc()
-    scs = []
-    if replay:
-        scs = [K.from_replay(replay)]
-    else:
-        cdir = os.path.join(C.ROOT, "corpus", "C02")
-        for f in sorted(os.listdir(cdir)) if os.path.isdir(cdir) else []:
-            scs.append(K.from_replay(json.load(open(os.path.join(cdir, f))), len(scs)))
-        n = 60 if chk.tier == "quick" else 700
-        for i in range(n):
-            cfg, items = R.gen_history(chk.rng)
-            scs.append(K.Scenario(len(scs), cfg, items, parallel=(i % 2 == 1)))
-    K.run_scenarios(xvc, scs)
-    dist = {"items": 0, "track": 0, "carry": 0, "recheck": 0, "user": 0, "panics": 0, "errors": 0, "parallel": 0}
-    reported = 0
-    for sc in scs:
-        chk.count(json.dumps(K.to_replay(sc), sort_keys=True), nontrivial(sc))
-        dist["parallel"] += sc.parallel
-        for it, o in zip(sc.eff, sc.robs):
-            dist["items"] += 1
-            dist[it[0] if it[0] in ("track", "carry", "recheck") else "user"] += 1
-            dist["panics"] += o["oc"] == "Panic"; dist["errors"] += o["oc"] == "Err"
-        bad = oracle(sc)
-        if bad and reported < 4:
-            j, what, klass = bad[0]
-            s2 = sc
-            if klass is None and not replay:
-                s2 = K.shrink_scenario(xvc, sc, lambda s: any(k is None for _, _, k in oracle(s)))
-                b2 = [b for b in oracle(s2) if b[2] is None]
-                if b2:
-                    j, what, klass = b2[0]
-            chk.fail("oracle", what, dict(K.to_replay(s2), failing_item=j, kind="impl-history"), name="cas", klass=klass)
-            reported += klass is None
-            continue
-        mm = K.check_correspondence(chk, model, sc)
-        if mm and reported < 4:
-            chk.fail("correspondence", "model and implementation differ at item %d: %s" % (mm["item"], "; ".join(mm["diffs"][:3])),
-                     dict(K.to_replay(sc), failing_item=mm["item"], diffs=mm["diffs"],
-                          theorem_or_correspondence="cas_invariant / objects_readonly / objects_immutable; correspondence repomodel vs xvc"),
-                     name="corr", klass=mm["klass"], has_input=False)
-            reported += mm["klass"] is None
-    for sc in scs[:2] + scs[-1:]:
-        chk.sample(K.to_replay(sc))
-    chk.cov["distribution"] = dist
-    chk.cov["rule"] = ("random histories (1-3 paths from a pool of shapes incl. nested, no extension, blanks, non-ASCII, dotfile, double extension; contents from a pool incl. empty, CR/LF mixes, NUL at byte 7999/8000, duplicates; "
-                       "4 algorithms, 4 methods, 3 text-or-binary modes; user write / write-through / delete / touch and track / carry-in / recheck with their options; half of the runs with --no-parallel); after EVERY item all cache objects are re-hashed. "
-                       "non-trivial = the history creates >= 2 objects and re-touches an existing address; distinct by the whole history")
-    return chk
+    chk.assumptions += ["ideal hash functions in the model; the oracle recomputes BLAKE3 (reference implementation), BLAKE2s, SHA-256, "
+                        "SHA3-256 over the bytes and over the CR/LF-stripped bytes"]
+    return K.drive(chk, replay, "C02", gen, K.c02_oracle, nontrivial, n_quick=120, n_thorough=800,
+                   rule=("random histories (1-3 paths from a pool of shapes incl. nested, no extension, blanks, non-ASCII, dotfile, double extension; "
+                         "contents from a pool incl. empty, CR/LF mixes, NUL at byte 7999/8000/8001, duplicates; 4 algorithms cycled, 4 methods, "
+                         "3 text-or-binary modes; user write / write-through / delete / touch and track / carry-in / recheck with their options; "
+                         "odd histories parallel, even ones --no-parallel); after EVERY item all cache objects are re-hashed, layout prefix/3/3/58/0.ext, "
+                         "modes, bytes+inode of pre-existing objects, one object per content. "
+                         "non-trivial = the history creates >= 2 objects and re-touches an existing address; distinct by the whole history"),
+                   theorems="cas_invariant / objects_readonly_files / directories_readonly / objects_immutable / cache_monotone")
